@@ -68,7 +68,7 @@ REAL = ['asyncssh stream.py (SSHReader/SSHWriter/SSHStreamSession), '
         'process.py (SSHClientProcess/SSHServerProcess, redirection), '
         'channel, connection of both endpoints']
 STUB = ['event loop + clock', 'TCP', 'executor', 'OS randomness']
-PROBES = ['signal_in_stream', 'mode_editor', 'soft_eof_ended_a_call', 'redirect_target_failed', 'server_side_redirect', 'redirect_switched', 'redirect_concat', 'read_cancelled', 'async_iteration', 'mode_reader', 'mode_run', 'mode_redirect', 'text_mode',
+PROBES = ['collect_output_polled', 'signal_in_stream', 'mode_editor', 'soft_eof_ended_a_call', 'redirect_target_failed', 'server_side_redirect', 'redirect_switched', 'redirect_concat', 'read_cancelled', 'async_iteration', 'mode_reader', 'mode_run', 'mode_redirect', 'text_mode',
           'tiny_packets', 'readuntil_multi', 'readuntil_regex',
           'incomplete_read_at_eof', 'limit_overrun', 'exit_signal',
           'exit_status', 'redirect_process', 'redirect_file',
@@ -173,6 +173,12 @@ def gen_plan(rng):
     n_out = rng.choice([0, 1, 5, 40, 200, 600])
     n_err = rng.choice([0, 0, 3, 50])
     n_in = rng.choice([0, 2, 30, 300])
+    collect_poll = mode == 'reader' and rng.chance(12)
+
+    if collect_poll:
+        # (every poll is an event of its own: keep the run short)
+        n_in = min(n_in, 30)
+        n_out = min(n_out, 200)
     plan = {
         'drbg': rng.below(1 << 30),
         'profile': {'p_sched': rng.choice([0, 30, 70, 95]),
@@ -195,6 +201,7 @@ def gen_plan(rng):
         'srv_hangup': rng.chance(20),
         # the command forwards two local sources instead of writing itself
         'srv_redirect': mode in ('reader', 'run') and rng.chance(15),
+        'collect_poll': collect_poll,
         'pump_gap': [rng.choice([0, 0, 2, 10]), rng.choice([0, 3, 20, 60])],
         'pump_high': rng.choice([1, 8, 64, 65536]),
     }
@@ -276,6 +283,10 @@ def valid_plan(plan):
 
         if tf is not None and (not 0 <= tf <= 1000 or plan.get('target')
                                not in ('stream_out', 'afile_out')):
+            return False
+
+        if plan.get('collect_poll') and (len(plan['inp']) > 30 or
+                                         len(plan['out']) > 200):
             return False
 
         gap = plan.get('pump_gap', [0, 0])
@@ -789,7 +800,38 @@ def run_plan(plan, sched_seed=None, sched_replay=None):
             proc.stdin.write_eof()
 
         try:
-            if mode == 'reader':
+            if mode == 'reader' and plan.get('collect_poll'):
+                # the caller never blocks in a read: it polls
+                # collect_output() ("intended to be called instead of
+                # read()") until the channel is closed
+                proc = await conn.create_process('cmd', **kw)
+                w = sim.track('cli-stdin', write_stdin(proc))
+                closed = sim.track('cli-closed', proc.wait_closed())
+                acc_o, acc_e = [], []
+                polls = 0
+                t0 = sim.loop.time()
+
+                while True:
+                    o, e = proc.collect_output()
+                    acc_o.append(o)
+                    acc_e.append(e)
+                    polls += 1
+
+                    if closed.done() or sim.loop.time() - t0 > 30:
+                        # (half a minute without the network doing anything
+                        # else: the output is not going to come)
+                        break
+
+                    # (a timer, not an event of the scheduler: whatever is
+                    # in flight gets its turn between two polls)
+                    await asyncio.sleep(0.01)
+
+                empty = '' if text else b''
+                res['collected'] = (empty.join(acc_o), empty.join(acc_e))
+                sim.probes['collect_output_polled'] += 1
+                await w
+                res['result'] = (proc.exit_status, proc.exit_signal)
+            elif mode == 'reader':
                 proc = await conn.create_process('cmd', **kw)
                 w = sim.track('cli-stdin', write_stdin(proc))
                 r1 = sim.track('cli-out', run_program(
@@ -1135,6 +1177,20 @@ def run_plan(plan, sched_seed=None, sched_replay=None):
                                     'units of stdin, %d were given' %
                                     (None if res['srv_in'] is None
                                      else len(res['srv_in']), len(s_in)))
+            elif mode == 'reader' and res.get('collected') is not None:
+                co, ce = res['collected']
+
+                if co != s_out or ce != s_err:
+                    world.violation(
+                        'incomplete-output',
+                        'polling collect_output() until the channel closed '
+                        'gave stdout %d of %d units and stderr %d of %d '
+                        'units (window %d)' %
+                        (len(co), len(s_out), len(ce), len(s_err),
+                         plan['window']), sig='collect')
+
+                check_exit(res['result'][0], res['result'][1],
+                           'collect_output()')
             elif mode == 'reader' and res['result']:
                 check_exit(res['result'][0], res['result'][1], 'wait()')
             elif mode == 'redirect':
